@@ -503,8 +503,8 @@ def createChannelDB (db : DB) (t c : Name) : DB := addRegistration (addRegistrat
 
 /-! ### Handlers as lists of critical sections; schedules
 
-`atomic = false`: the sections of the tree as it is (each `RegistrationDB` method call is one);
-`atomic = true`: the sections with the proposed fix F18 (`RegisterProducer`, `RemoveTopic`,
+`atomic = false`: the sections of the tree before F21 (each `RegistrationDB` method call is one);
+`atomic = true`: the sections since F21 = commit 0d24920 (`RegisterProducer`, `RemoveTopic`,
 `AddTopicChannel`: one critical section per handler). `interleave` enumerates every schedule of
 two handlers running concurrently (each keeps its own order). -/
 
